@@ -112,11 +112,16 @@ template <typename P> inline void observe_simple(P& c, int n, Shadow& S) {   // 
   if (c.is_empty()) return;
   Disj d; d.cons = ref::conv(c.constraints(), n); S.d.push_back(d);
 }
+// the state word of an ascii_dump: the first of the leading lines that looks like a status line
 inline std::string second_line(const std::string& s) {
-  size_t a = s.find('\n'); if (a == std::string::npos) return "";
-  size_t b = s.find('\n', a + 1); if (b == std::string::npos) b = s.size();
-  std::string l = s.substr(a + 1, b - a - 1);
-  return l.size() <= 48 ? l : "";
+  size_t pos = 0;
+  for (int k = 0; k < 3 && pos < s.size(); ++k) {
+    size_t e = s.find('\n', pos); if (e == std::string::npos) e = s.size();
+    std::string l = s.substr(pos, e - pos);
+    if (l.size() <= 60 && (l.find("EM") != std::string::npos || l.find("reduced") != std::string::npos)) return l;
+    pos = e + 1;
+  }
+  return "";
 }
 
 template <typename D> struct DomImpl : IDom {
